@@ -1,1 +1,2 @@
+import Cpppo.Props.C10
 import Cpppo.Props.C19
